@@ -455,6 +455,12 @@ class Project(MessageHandler):
 
                 if forward is False and not task_end and container_end and is_terminal:
                     task[("end", scIdx)] = container_end
+                elif forward is False and not task_end and container_end:
+                    # A child with successors takes its deadline from them - but never a
+                    # later one than the enclosing container allows.
+                    task_scenario = task.data[scIdx] if getattr(task, "data", None) else None
+                    if task_scenario is not None:
+                        task_scenario.containerDeadline = container_end
             else:
                 # Container - propagate to children
                 for child in task.children:
